@@ -60,7 +60,7 @@ def run_menu(ctx, name, menu, depth, view=False, lookahead=2):
     cfg = cfg.replace('@MENU@', '{' + ', '.join('"%s"' % m for m in menu) + '}').replace('@DEPTH@', str(depth))
     wd = tlc.new_workdir('Units-' + name)
     dot = os.path.join(wd, 'graph.dot')
-    r = tlc.run('Units', cfg_text=cfg, workdir=wd, tag='Units-' + name, timeout=3000,
+    r = tlc.run('Units', cfg_text=cfg, workdir=wd, tag='Units-' + name, timeout=3000, workers=1,
                 extra=['-dump', 'dot,actionlabels', dot])
     ok = ctx.add_tlc(r, 'Units[%s]: %d-item menu, histories of length <= %d; SymUnique DimUnique OwnType VecType '
                         'RefUnitOfDerived CacheCoherent DefinedIffDeclared RejectedLeavesNoTrace' % (
